@@ -718,6 +718,115 @@ func wirePin() string {
 	if wire == nil || len(errOnly) == 0 {
 		return "wire-unrecognised:no-Wire"
 	}
+	// the wireFuncs variable: first statement of Wire, `<name> := wireFuncs{...}`
+	wName := ""
+	if len(wire.Body.List) > 0 {
+		if as, ok := wire.Body.List[0].(*ast.AssignStmt); ok && as.Tok == token.DEFINE && len(as.Lhs) == 1 && len(as.Rhs) == 1 {
+			if id, ok := as.Lhs[0].(*ast.Ident); ok {
+				if cl, ok := as.Rhs[0].(*ast.CompositeLit); ok {
+					if t, ok := cl.Type.(*ast.Ident); ok && t.Name == "wireFuncs" {
+						wName = id.Name
+					}
+				}
+			}
+		}
+	}
+	if wName == "" {
+		return "wire-unrecognised:no-wirefuncs-var"
+	}
+	// single-definition locals of Wire's body (`x := w.F`, `x := func(...) ... { return w.F(...) }`): exactly one
+	// `:=` at top level, never assigned again, never `&x`; any other local that reaches an argument fails closed
+	locals := map[string]ast.Expr{}
+	spoiled := map[string]bool{}
+	for k, st := range wire.Body.List {
+		if k == 0 {
+			continue
+		}
+		as, ok := st.(*ast.AssignStmt)
+		if !ok || as.Tok != token.DEFINE {
+			continue
+		}
+		for _, l := range as.Lhs {
+			if id, ok := l.(*ast.Ident); ok {
+				if _, dup := locals[id.Name]; dup || len(as.Lhs) != 1 || len(as.Rhs) != 1 {
+					spoiled[id.Name] = true
+				}
+				if len(as.Rhs) == 1 {
+					locals[id.Name] = as.Rhs[0]
+				} else {
+					locals[id.Name] = nil
+				}
+			}
+		}
+	}
+	ast.Inspect(wire.Body, func(n ast.Node) bool {
+		switch n := n.(type) {
+		case *ast.AssignStmt:
+			topDefine := false
+			if n.Tok == token.DEFINE {
+				for _, st := range wire.Body.List {
+					if st == ast.Stmt(n) {
+						topDefine = true
+					}
+				}
+			}
+			if !topDefine {
+				for _, l := range n.Lhs {
+					if id, ok := l.(*ast.Ident); ok {
+						if _, isLocal := locals[id.Name]; isLocal {
+							spoiled[id.Name] = true // assigned again, or redefined in an inner scope
+						}
+					}
+				}
+			}
+		case *ast.IncDecStmt:
+			if id, ok := n.X.(*ast.Ident); ok {
+				spoiled[id.Name] = true
+			}
+		case *ast.UnaryExpr:
+			if id, ok := n.X.(*ast.Ident); ok && n.Op == token.AND && id.Name != wName {
+				spoiled[id.Name] = true
+			}
+		case *ast.RangeStmt:
+			for _, e := range []ast.Expr{n.Key, n.Value} {
+				if id, ok := e.(*ast.Ident); ok {
+					if _, isLocal := locals[id.Name]; isLocal {
+						spoiled[id.Name] = true
+					}
+				}
+			}
+		}
+		return true
+	})
+	bad := ""
+	// resolve follows an identifier naming such a local (not shadowed by a parameter of an enclosing closure)
+	resolve := func(e ast.Expr, shadow map[string]bool) ast.Expr {
+		for k := 0; k < 8; k++ {
+			id, ok := e.(*ast.Ident)
+			if !ok || shadow[id.Name] {
+				return e
+			}
+			d, isLocal := locals[id.Name]
+			if !isLocal {
+				return e
+			}
+			if spoiled[id.Name] || d == nil {
+				bad = "wire-unrecognised:local:" + id.Name
+				return e
+			}
+			e = d
+		}
+		bad = "wire-unrecognised:local-chain"
+		return e
+	}
+	wField := func(e ast.Expr) string {
+		if s, ok := e.(*ast.SelectorExpr); ok {
+			if x, ok := s.X.(*ast.Ident); ok && x.Name == wName {
+				return s.Sel.Name
+			}
+		}
+		return ""
+	}
 	var syncs []string
 	seen := map[string]bool{}
 	for _, st := range wire.Body.List {
@@ -730,19 +839,28 @@ func wirePin() string {
 			continue
 		}
 		var target string
-		switch a := ce.Args[0].(type) {
+		arg := resolve(ce.Args[0], nil)
+		if bad != "" {
+			return bad
+		}
+		switch a := arg.(type) {
 		case *ast.SelectorExpr:
-			if x, ok := a.X.(*ast.Ident); ok && x.Name == "w" {
-				target = a.Sel.Name
-			}
+			target = wField(a)
 		case *ast.FuncLit:
+			params := map[string]bool{}
+			if a.Type.Params != nil {
+				for _, fl := range a.Type.Params.List {
+					for _, nm := range fl.Names {
+						params[nm.Name] = true
+					}
+				}
+			}
 			if len(a.Body.List) == 1 {
 				if r, ok := a.Body.List[0].(*ast.ReturnStmt); ok && len(r.Results) == 1 {
 					if c, ok := r.Results[0].(*ast.CallExpr); ok {
-						if s, ok := c.Fun.(*ast.SelectorExpr); ok {
-							if x, ok := s.X.(*ast.Ident); ok && x.Name == "w" {
-								target = s.Sel.Name
-							}
+						target = wField(resolve(c.Fun, params))
+						if bad != "" {
+							return bad
 						}
 					}
 				}
